@@ -811,9 +811,10 @@ def run(ck):
     g2 = _mk('internal', 'stm32', [16, 1, 4, 1], 30)            # two flash-writes
     g3 = _mk('internal', 'nrf51', [16, 2, 8, 1], 70)            # three flash-writes (2+2+1 pages)
     g4 = _mk('internal', 'stm32', [25, 1, 8, 3], 100, None, (), 1)   # four flash-writes, 25-byte pages
-    trees = [(g1, LETTERS_ALL), (g1n, LETTERS_MAIN), (g2, LETTERS_MAIN), (g3, LETTERS_BASIC)]
-    if not quick:
-        trees += [(g1n, LETTERS_ALL), (g2, LETTERS_ALL), (g3, LETTERS_MAIN), (g4, LETTERS_BASIC)]
+    if quick:
+        trees = [(g1, LETTERS_ALL), (g1n, LETTERS_MAIN), (g2, LETTERS_MAIN), (g3, LETTERS_BASIC)]
+    else:       # LETTERS_ALL is a superset of LETTERS_MAIN, so these trees contain the quick ones
+        trees = [(g1, LETTERS_ALL), (g1n, LETTERS_ALL), (g2, LETTERS_ALL), (g3, LETTERS_BASIC), (g4, LETTERS_BASIC)]
     tree_notes = []
     for base, letters in trees:
         before = ck.evaluations
